@@ -25,7 +25,9 @@ meta = {"property": pid, "variant": k}
 sh("git -C %s checkout -- ." % wt)
 rc0, out0 = demo(); meta["demo_on_clean_tree"] = {"exit": rc0, "tail": out0[-200:]}
 a = sh("git -C %s apply %s/patch.diff" % (wt, src)); meta["patch_applies"] = a.returncode == 0
-ok = passed_tests(); meta["baseline_tests_still_passing"] = len(base & ok); meta["baseline_tests_lost"] = sorted(base - ok)
+ok = passed_tests()
+if base - ok: ok |= passed_tests()         # two baseline tests are time-of-day flaky (minute roll-over); a second run settles them
+meta["baseline_tests_still_passing"] = len(base & ok); meta["baseline_tests_lost"] = sorted(base - ok)
 rc1, out1 = demo(); meta["demo_with_change"] = {"exit": rc1, "tail": out1[-300:]}
 sh("git -C %s checkout -- ." % wt)
 meta["confirmed"] = bool(rc0 == 0 and rc1 != 0 and meta["patch_applies"] and not (base - ok))
